@@ -30,7 +30,7 @@ theorem tokens_shift (E : Env) (n : Bool) (pre X : List Rune) (hc : Clean (scanR
 
 /-- a prefix made of complete lines (each ended by a newline not preceded by a hyphen-ended word)
 leaves nothing pending: after a plain newline the state is clean again -/
-theorem clean_after_plain_nl (E : Env) (s : State) (hd : s.deferredEOL = false) (hw : s.deferredWord = false)
+theorem clean_after_plain_nl (E : Env) (s : State) (hd : s.deferredEOL = false) (hw : s.deferredLines = 0)
     (hh : s.obuf.getLast? ≠ some hyphen) : Clean (step E true s nl) :=
   clean_after_plain_nl' E s hd hw hh
 
